@@ -138,3 +138,15 @@ Fixpoint sd_run (s : sdst) (ops : list sdop) : sdst * list (list sdout) :=
   | [] => (s, [])
   | o :: r => let '(s1, x) := sd_step s o in let '(s2, xs) := sd_run s1 r in (s2, x :: xs)
   end.
+
+(* ---------- Part C: the follower side of the leader-assigned variant (serviceDiscovery.StartHeartbeat / ReassignLeader) ----------
+   One heart-beat round of a follower: ping the leader; on failure reconnect and, if that works, register again (the leader
+   drops a follower whose ping failed, and a restarted leader knows nobody); if either fails the leader is let go. *)
+Inductive fhout := FReconnect | FRegister | FDropLeader.
+
+Definition fh_round (has_leader ping_ok reconnect_ok register_ok : bool) : list fhout * bool (* a leader is still assigned *) :=
+  if negb has_leader then ([], false)
+  else if ping_ok then ([], true)
+  else if negb reconnect_ok then ([FReconnect; FDropLeader], false)
+  else if register_ok then ([FReconnect; FRegister], true)
+  else ([FReconnect; FRegister; FDropLeader], false).
